@@ -418,6 +418,11 @@ def validate (unq : Str → Option Str) (atoi : Str → Int) (extra : List Resol
   | .ok (.error e) => .ok (.error e)
   | .ok (.ok ui) =>
   if ui.length ≠ 1 then .ok (.error .uiAddrCount) else
+  -- cfg.UI.Listen, err = parseListen(kvs[0], …): the index is checked; it is in range only because of the
+  -- count check just above (`len(kvs) != 1 ⇒ error`, pinned by the `indexGuards` fact)
+  match ui[0]? with
+  | none => .panic "index out of range [0] with length 0"
+  | some _ =>
   match kvCheck unq "proxy.addr".toList (rawOf vals "proxy.addr".toList) with
   | .panic w => .panic w
   | .ok (.error e) => .ok (.error e)
